@@ -10,6 +10,7 @@ import (
 	"github.com/ipfs/go-datastore"
 	"io"
 	"math"
+	"strings"
 	"time"
 
 	"github.com/filecoin-project/go-f3/certexchange"
@@ -470,9 +471,15 @@ func runC16(o *out, r *rng, thorough bool, replay string) {
 			must(cstore.Put(ctx, c))
 		}
 		installResponder(sh, []scriptResp{{pending: uint64(have + extra), certs: honest[have : have+extra]}})
+		localPuts := 1 + r.intn(2) // 1 or 2 local instances finish meanwhile (extra >= 2)
+		if si%5 == 4 {
+			localPuts = 0
+		}
 		responderHook = func(k int) {
 			if k == 0 {
-				_ = cstore.Put(ctx, honest[have]) // the local instance `have` finished meanwhile
+				for j := 0; j < localPuts; j++ {
+					_ = cstore.Put(ctx, honest[have+j]) // the local instance `have+j` finished meanwhile
+				}
 			}
 		}
 		client := &certexchange.Client{Host: ch, NetworkName: verifNet, RequestTimeout: 5 * time.Second}
@@ -480,7 +487,7 @@ func runC16(o *out, r *rng, thorough bool, replay string) {
 		must(err)
 		res, err := p.Poll(ctx, sh.ID())
 		responderHook = nil
-		in := map[string]any{"client_had": have, "response_certs": extra, "scenario": "certificate stored locally while the request for it was in flight"}
+		in := map[string]any{"client_had": have, "response_certs": extra, "local_puts_in_flight": localPuts, "scenario": "certificate stored locally while the request for it was in flight"}
 		if err != nil {
 			o.violate("poll never fails internally", "poller-internal-error", in, err.Error())
 		} else {
@@ -495,8 +502,25 @@ func runC16(o *out, r *rng, thorough bool, replay string) {
 				o.violate("the poller stores the valid prefix", "poller-valid-prefix-not-stored", in, "store head differs from the end of the valid prefix")
 			}
 		}
+		if err == nil {
+			// the same run through the model of the per-certificate loop with local progress (Cx/PollLocal.v)
+			var items []string
+			for j := 0; j < localPuts; j++ {
+				items = append(items, "PollLocal.PLocal")
+			}
+			for j := 0; j < extra; j++ {
+				items = append(items, fmt.Sprintf("PollLocal.PCert %s true", cZ(int64(have+j))))
+			}
+			latest := int64(-1)
+			if l := cstore.Latest(); l != nil {
+				latest = int64(l.GPBFTInstance)
+			}
+			o.coqCase(fmt.Sprintf("poll-local %v", in),
+				fmt.Sprintf("PollLocal.local_poll_ok %s %s [%s] %s %s %s %s %s", cZ(int64(have)), cZ(int64(have)-1), strings.Join(items, "; "),
+					cZ(int64(p.NextInstance)), cZ(latest), cZ(int64(res.ReceivedCertificates)), cZ(int64(res.NewCertificates)), cBool(res.Status == polling.PollIllegal)))
+		}
 		o.count("poll-local-put-in-flight", fmt.Sprint(in), true)
 		_ = mn.Close()
 	}
-	o.finish("From F3 Require Import GoInt ServerGen Exchange.")
+	o.finish("From F3 Require Import GoInt ServerGen Exchange PollLocal.")
 }
